@@ -501,26 +501,27 @@ def is_connected(A):
     return len(seen) == n
 
 
-# Input classes on which the current code is known to depend on the numbering get their own clause
-# so that they stay apart from the general `relabel` clause (see the final report / known findings).
+# Clause names.  `relabel` = undirected input, `relabel-directed` = directed input (kept apart because
+# several igraph-backed measures are only numbering-independent on undirected graphs, see
+# DIRECTED_FRAGILE), plus two input classes on which the current code is known to depend on the
+# numbering (final report / known findings).
 DIRECTED_FRAGILE = {
     "link_betweenness": "igraph's directed edge betweenness is written back with an undirected "
                         "i<j edge enumeration",
     "edge_betweenness": "alias of link_betweenness",
     "transitivity": "igraph transitivity_undirected on a directed graph with mutual links",
     "higher_order_transitivity": "order 3 = transitivity",
+    "transitivity_dim_single_scale": "log of transitivity",
 }
 
 
 def classify(c, cls_name, inp, connected):
-    if inp.get("directed") and c.method in DIRECTED_FRAGILE:
-        return "relabel-directed"
     if c.method == "nsi_arenas_betweenness" and "twinness" in c.name and not connected:
         return "relabel-disconnected-twinness"
     if c.owner == "GeoNetwork" and "distribution" in c.method:
         # geographical_distribution: the bin of the maximal element is int((n_bins-1)*(1/r)*r)
         return "relabel-binning"
-    return "relabel"
+    return "relabel-directed" if inp.get("directed") else "relabel"
 
 
 _PLANS = {}
@@ -813,18 +814,26 @@ def gen_groups(tier, seed):
         base.update({"lat": lat, "lon": lon, "nwt": [None, "surface"][t % 2], "resist": R.tolist()})
         groups.append({"inp": base, "perms": some_perms(rng, n, 2 if quick else 4, 4 if quick else 5)})
     # 5. recurrence networks of unembedded state vectors (a renumbering of the states)
-    for t in range(6 if quick else 36):
-        n = int(rng.randint(6, 12 if quick else 20))
-        d = int(rng.randint(1, 4))
-        X = rng.normal(size=(n, d))
-        thr = [{"threshold": 1.0}, {"recurrence_rate": 0.3}, {"local_recurrence_rate": 0.3}][t % 3]
-        inp = {"cls": "RecurrenceNetwork", "series": X.tolist(),
-               "rn": {"metric": ["supremum", "euclidean", "manhattan"][(t // 3) % 3], "thr": thr},
-               "w": [float(x) for x in rng.uniform(0.2, 3.0, size=n)],
-               "attrs": {KEY: (lambda U: ((U + U.T) / 2).tolist())(rng.uniform(0.3, 3.0, size=(n, n)))},
-               "lists": random_bipartition(rng, n),
-               "other_A": random_graph(rng, n, 0.5, "local_recurrence_rate" in thr).tolist(),
-               "directed": "local_recurrence_rate" in thr}
+    for t in range(8 if quick else 40):
+        variant = t % 4
+        for attempt in range(50):
+            n = int(rng.randint(6, 12 if quick else 20))
+            d = int(rng.randint(1, 4))
+            X = rng.normal(size=(n, d))
+            thr = [{"threshold": 1.0}, {"recurrence_rate": 0.3}, {"local_recurrence_rate": 0.3},
+                   {"recurrence_rate": 0.7}][variant]
+            inp = {"cls": "RecurrenceNetwork", "series": X.tolist(),
+                   "rn": {"metric": ["supremum", "euclidean", "manhattan"][(t // 4) % 3], "thr": thr},
+                   "w": [float(x) for x in rng.uniform(0.2, 3.0, size=n)],
+                   "attrs": {KEY: (lambda U: ((U + U.T) / 2).tolist())(rng.uniform(0.3, 3.0, size=(n, n)))},
+                   "lists": random_bipartition(rng, n),
+                   "other_A": random_graph(rng, n, 0.5, "local_recurrence_rate" in thr).tolist(),
+                   "directed": "local_recurrence_rate" in thr}
+            if variant != 3:
+                break
+            with quiet():                      # the dense variant must be connected (eigenvector c.)
+                if is_connected(np.array(build(inp).adjacency)):
+                    break
         groups.append({"inp": inp, "perms": some_perms(rng, n, 2 if quick else 4, 0)})
     return groups
 
@@ -969,13 +978,13 @@ def main():
                     cls_name not in [s["inp"]["cls"] for s in rep.samples]:
                 rep.samples.append(jsonable({"inp": group["inp"], "perm": group["perms"][0]}))
             allfail.extend(failures)
-    emit_failures(rep, allfail)
     for cls_name in CLASSES:
         calls, _ = plan(cls_name)
         missing = sorted({c.name for c in calls} - names.get(cls_name, set()))
         if missing:
-            rep.fail("coverage/never-evaluated", {"class": cls_name, "measures": missing},
-                     "discovered but never evaluated")
+            allfail.append(("coverage/never-evaluated", {"class": cls_name, "measures": missing},
+                            "discovered but never evaluated: %s %s" % (cls_name, missing)))
+    emit_failures(rep, allfail)
     if herr:
         sys.stderr.write(herr[0] + "\n")
         rep.failures.insert(0, {"check": "harness/error", "witness": {"n": len(herr)}, "detail": herr[0][-600:]})
